@@ -80,7 +80,7 @@ func genAppMsg(r *rand.Rand, nv, nc int, chainInfoOnly bool) appMsg {
 	case k < 10:
 		m.Kind, m.Data = "feemgr", []string{appFeeMgr, "0x0000000000000000000000000000000000000001", "nope"}[r.Intn(3)]
 	case k < 12:
-		m.Kind, m.Data = "fee", []string{"1.0", "1.1", "2.0", "0", "-1", "1000000"}[r.Intn(6)]
+		m.Kind, m.Data = "fee", []string{"1.0", "1.1", "2.0", "0", "-1", "1000000", "1.0000006", "1.0000012", "1.0000018"}[r.Intn(9)]
 	case k < 13:
 		m.Kind, m.Data, m.Drop = "extinfo", []string{"", "b"}[r.Intn(2)], r.Intn(3) == 0
 		if r.Intn(2) == 0 {
@@ -186,6 +186,20 @@ func genAppScript(run *emit.Run, nBlocks int) *appScript {
 	}
 	for i := range g.Weights {
 		g.Weights[i] = decPool[r.Intn(len(decPool))]
+	}
+	if r.Intn(3) == 0 {
+		// round 3: a chain of near-tie relayer fees — 1.0, 1.0000006, 1.0000012, ... and one validator at 2.0 spanning the
+		// range — with the address order opposing the score order (the cheapest validator has the largest address): a
+		// comparison "equal within a tolerance" is cyclic on it and the pick depends on the map order
+		for i := 0; i < nv; i++ {
+			for c := 0; c < g.NChains; c++ {
+				g.Fees[i][c] = fmt.Sprintf("1.%07d", 6*(nv-1-i))
+				if i == 0 {
+					g.Fees[i][c] = "2.0"
+				}
+			}
+		}
+		g.Weights = [5]string{"1.0", "0", "0", "0", "0"}
 	}
 	if r.Intn(2) == 0 { // some pigeons never report alive
 		g.Dead = r.Perm(nv)[:2+r.Intn(2)]
@@ -301,7 +315,19 @@ func corpusAppScripts() []*appScript {
 			{Height: 100, Time: 1_700_000_300, Restart: true, Txs: []appTx{{Msgs: []appMsg{{Kind: "job"}}}}},
 		},
 	}
-	return []*appScript{a, b, c}
+	// (4) seeded C08-D: relayer fees 2.0 / 1.0000012 / 1.0000006 / 1.0 (the cheapest validator has the largest address),
+	// only the fee counts: a chain of near-ties.  Several picks at block times with different residues.
+	d := &appScript{
+		Genesis: appGenesis{Powers: []int64{10, 10, 10, 10}, NChains: 1, Fees: [][]string{{"2.0"}, {"1.0000012"}, {"1.0000006"}, {"1.0"}},
+			Traits: [][]string{nil, nil, nil, nil}, Weights: [5]string{"1.0", "0", "0", "0", "0"}},
+		Blocks: []appBlock{
+			{Height: 2, Time: 1_700_000_100, Txs: []appTx{{Msgs: []appMsg{{Kind: "slc", Data: "p"}}}, {Msgs: []appMsg{{Kind: "job"}}}}},
+			{Height: 3, Time: 1_700_000_101, Txs: []appTx{{Msgs: []appMsg{{Kind: "slc", Data: "q"}}}, {Msgs: []appMsg{{Kind: "slc", Data: "r"}}}}},
+			{Height: 4, Time: 1_700_000_102, Restart: true, Txs: []appTx{{Msgs: []appMsg{{Kind: "job"}}}, {Msgs: []appMsg{{Kind: "slc", Data: "s"}}}}},
+			{Height: 5, Time: 1_700_000_103, Txs: []appTx{{Msgs: []appMsg{{Kind: "slc", Data: "t"}}}}},
+		},
+	}
+	return []*appScript{a, b, c, d}
 }
 
 // ---- parent side ----
